@@ -175,6 +175,7 @@ def run_history(case, ctx=None):
         d0 = os.path.join(tmp, "all")
         os.makedirs(d0)
         files = write_jobs(d0, [j for ch in pv for j in ch], "job")
+        files_all = files
         r_all = guarded(run_dispatch, files, os.path.join(tmp, "out_all"),
                         wf)
         # chunked
@@ -229,6 +230,19 @@ def run_history(case, ctx=None):
         else:
             msg = c03.equivalent(text_all, text_inc, case["sched"])
         if msg:
+            # same model, different diagram: is it the history, or is the
+            # learner unstable on this model (C03's subject)?  Learn the
+            # whole set once more under another schedule seed.
+            learn.SCHED.reseed(case["sched"] + 4242)
+            r_again = guarded(run_dispatch, files_all,
+                              os.path.join(tmp, "out_all2"), wf)
+            if r_again[0] != "ok" or (
+                    c03.norm_text(r_again[1][0]) != c03.norm_text(text_all)
+                    if bcnt else
+                    c03.equivalent(text_all, r_again[1][0], case["sched"])):
+                if ctx:
+                    ctx.count("learner_unstable_on_same_model_(C03)")
+                return
             raise Violation(
                 f"diagram learned in {len(chunks)} chunks "
                 f"{[len(c) for c in chunks]} through saved models is not "
@@ -338,7 +352,8 @@ def strategies():
                  "splits": c["splits"], "name": c["name"]}
         return c
 
-    names = st.sampled_from(["A", "B", "C", "D", "E F", "G.h"])
+    names = st.sampled_from(["A", "B", "C", "D", "E F", "G.h", "H ", " I",
+                             "A "])
     mset = st.lists(names, min_size=1, max_size=5)
     fam = st.lists(mset, min_size=0, max_size=4)
 
